@@ -609,6 +609,89 @@ fn hotchurn(threads: usize, millis: u64, seed: u64) -> Value {
     json!({"mode": "stress", "threads": threads, "searches": total, "mismatches": mismatches, "panics": panics, "interleaving": format!("hotchurn{}x{}ms", threads, millis), "inputs_mutated": []})
 }
 
+/// Ownership moves between threads: the main thread compiles an expression, long-lived worker
+/// threads search it, the main thread drops it and compiles the next one — a text of the same
+/// length that differs in a constant, so that it may well land where the previous one was stored.
+/// Whatever a worker remembers about the old expression must not answer for the new one. In the
+/// same rounds all threads compile deeply nested (but individually modest) texts at once: anything
+/// counted per parse must not add up across threads. Expected results are known by construction.
+fn handoff(threads: usize, rounds: usize, seed: u64) -> Value {
+    use std::sync::Mutex;
+    let items: Vec<Value> = (0..100).map(|i| json!({"n": i, "id": i})).collect();
+    let doc = Rcvar::new(var_of(&json!({"items": items, "a": 1})));
+    let slot: Arc<Mutex<Option<Arc<Expression<'static>>>>> = Arc::new(Mutex::new(None));
+    let want: Arc<Mutex<String>> = Arc::new(Mutex::new(String::new()));
+    let barrier = Arc::new(Barrier::new(threads + 1));
+    let depth = 60 + (seed as usize % 3) * 30;
+    let deep_text = format!("{}a{}", "[".repeat(depth), "]".repeat(depth));
+    let deep_want = format!("ok:{}1{}", "[".repeat(depth), "]".repeat(depth));
+    let mut handles = vec![];
+    for t in 0..threads {
+        let (slot, want, barrier, doc, deep_text, deep_want) = (slot.clone(), want.clone(), barrier.clone(), doc.clone(), deep_text.clone(), deep_want.clone());
+        handles.push(thread::spawn(move || {
+            let mut mism: Vec<Value> = vec![];
+            let mut done = 0u64;
+            let r = catch_unwind(AssertUnwindSafe(|| {
+                for round in 0..rounds {
+                    barrier.wait();
+                    let e = slot.lock().unwrap().clone().expect("expression of the round");
+                    let w = want.lock().unwrap().clone();
+                    for _ in 0..3 {
+                        let g = fp(&e.search(&doc));
+                        done += 1;
+                        if g != w && mism.len() < 3 {
+                            mism.push(json!({"mode": "handoff", "thread": t, "round": round, "expression": e.as_str(), "known_by_construction": w, "observed": g}));
+                        }
+                    }
+                    drop(e);
+                    // everybody parses something deep at the same time
+                    let g = fp(&jmespath::compile(&deep_text).and_then(|x| x.search(&doc)));
+                    done += 1;
+                    if g != deep_want && mism.len() < 3 {
+                        mism.push(json!({"mode": "handoff", "thread": t, "round": round, "expression": format!("{} nested multi-select lists around `a`", depth), "observed": g.chars().take(200).collect::<String>()}));
+                    }
+                    let g = fp(&jmespath::compile("items[2].id").and_then(|x| x.search(&doc)));
+                    if g != "ok:2" && mism.len() < 3 {
+                        mism.push(json!({"mode": "handoff", "thread": t, "round": round, "expression": "items[2].id", "observed": g}));
+                    }
+                    barrier.wait();
+                }
+            }));
+            (mism, done, r.is_err())
+        }));
+    }
+    for round in 0..rounds {
+        let k = 10 + (round * 7 + seed as usize) % 89;
+        let text = format!("{{ids: items[?n > to_number('{:02}')].id, c: length('{:02}'), k: to_number('{:02}')}}", k, k, k);
+        let ids: Vec<String> = (k + 1..100).map(|i| i.to_string()).collect();
+        *want.lock().unwrap() = format!("ok:{{\"c\":2,\"ids\":[{}],\"k\":{}}}", ids.join(","), k);
+        let e = Arc::new(jmespath::compile(&text).expect("handoff expression compiles"));
+        drop(text);
+        *slot.lock().unwrap() = Some(e);
+        barrier.wait();
+        barrier.wait();
+        // the workers have dropped their clones: this is the last reference, dropped on the main thread
+        let last = slot.lock().unwrap().take();
+        drop(last);
+    }
+    let mut mismatches = vec![];
+    let mut total = 0;
+    let mut panics = 0;
+    for h in handles {
+        match h.join() {
+            Ok((m, d, p)) => {
+                mismatches.extend(m);
+                total += d;
+                if p {
+                    panics += 1;
+                }
+            }
+            Err(_) => panics += 1,
+        }
+    }
+    json!({"mode": "stress", "threads": threads, "searches": total, "mismatches": mismatches, "panics": panics, "interleaving": format!("handoff{}x{}d{}", threads, rounds, depth), "inputs_mutated": []})
+}
+
 fn main() {
     let a: Vec<String> = std::env::args().skip(1).collect();
     let num = |i: usize, d: u64| a.get(i).and_then(|v| v.parse().ok()).unwrap_or(d);
@@ -616,6 +699,7 @@ fn main() {
         Some("stress") => stress(num(1, 4) as usize, num(2, 1000) as usize, num(3, 1), 24, 6),
         Some("first") => first(num(1, 4) as usize, num(2, 0), 26),
         Some("burst") => burst(num(1, 4) as usize, num(2, 2000) as usize, num(3, 1)),
+        Some("handoff") => handoff(num(1, 4) as usize, num(2, 300) as usize, num(3, 1)),
         Some("hotchurn") => hotchurn(num(1, 8) as usize, num(2, 2000), num(3, 1)),
         Some("twins") => twins(num(1, 4) as usize, num(2, 300) as usize, num(3, 1)),
         Some("runtimes") => runtimes(num(1, 4) as usize, num(2, 200) as usize, num(3, 1)),
